@@ -124,7 +124,13 @@ func (ti *TypeInfo) Enter(node ast.Node) {
 			ttype, _ = typeFromAST(*schema, node.TypeCondition)
 			ti.typeStack = append(ti.typeStack, ttype)
 		} else {
-			ti.typeStack = append(ti.typeStack, ti.Type())
+			// without a type condition the fragment applies to the named
+			// type of the enclosing field, not to its list/non-null wrapper
+			var namedType Output
+			if ti.Type() != nil {
+				namedType, _ = GetNamed(ti.Type()).(Output)
+			}
+			ti.typeStack = append(ti.typeStack, namedType)
 		}
 	case *ast.FragmentDefinition:
 		typeConditionAST := node.TypeCondition
